@@ -630,12 +630,16 @@ func c19MicroCase(t *testing.T, ep string, admitted, fallback bool, handler stri
 		if fallback {
 			opts = append(opts, WithClientBlockFallback(func(context.Context, client.Request, *base.BlockError) error {
 				c.fallbackCalled()
-				return c19ErrFallback
+				return c19FbResult(handler)
 			}))
 		}
 		wrapped := NewClientWrapper(opts...)(inner)
 		c.EscapedPanic = c19Guard(func() { err = wrapped.Call(ctx, req, new(string)) })
 		c.Response = c19ErrText(err)
+		if !admitted && fallback {
+			// the caller must get exactly what the fallback answered
+			c.Body, c.FallbackBody, c.BodyChecked = c19ErrText(err), c19ErrText(c19FbResult(handler)), true
+		}
 		c.DefaultRejectionSeen = c19IsBlockErr(err)
 		c.Notes = "wrapped.Call on a hand-made inner client.Client (applies select filters / call wrappers like rpcClient); handler = the inner client's remote call; " + inner.note
 
@@ -653,13 +657,17 @@ func c19MicroCase(t *testing.T, ep string, admitted, fallback bool, handler stri
 		if fallback {
 			opts = append(opts, WithStreamClientBlockFallback(func(context.Context, client.Request, *base.BlockError) (client.Stream, error) {
 				c.fallbackCalled()
-				return nil, c19ErrFallback
+				return nil, c19FbResult(handler)
 			}))
 		}
 		wrapped := NewClientWrapper(opts...)(inner)
 		var cs client.Stream
 		c.EscapedPanic = c19Guard(func() { cs, err = wrapped.Stream(ctx, req) })
 		c.Response = c19ErrText(err)
+		if !admitted && fallback {
+			// the caller must get exactly what the fallback answered
+			c.Body, c.FallbackBody, c.BodyChecked = c19ErrText(err), c19ErrText(c19FbResult(handler)), true
+		}
 		c.DefaultRejectionSeen = c19IsBlockErr(err)
 		c.Notes = fmt.Sprintf("wrapped.Stream on a hand-made inner client.Client; handler = the inner client's stream open; returned_stream_nil=%t; %s", cs == nil, inner.note)
 
@@ -669,7 +677,7 @@ func c19MicroCase(t *testing.T, ep string, admitted, fallback bool, handler stri
 		if fallback {
 			opts = append(opts, WithServerBlockFallback(func(context.Context, server.Request, *base.BlockError) error {
 				c.fallbackCalled()
-				return c19ErrFallback
+				return c19FbResult(handler)
 			}))
 		}
 		h := NewHandlerWrapper(opts...)(func(context.Context, server.Request, interface{}) error {
@@ -677,6 +685,10 @@ func c19MicroCase(t *testing.T, ep string, admitted, fallback bool, handler stri
 		})
 		c.EscapedPanic = c19Guard(func() { err = h(ctx, req, new(string)) })
 		c.Response = c19ErrText(err)
+		if !admitted && fallback {
+			// the caller must get exactly what the fallback answered
+			c.Body, c.FallbackBody, c.BodyChecked = c19ErrText(err), c19ErrText(c19FbResult(handler)), true
+		}
 		c.DefaultRejectionSeen = c19IsBlockErr(err)
 		c.Notes = "wrapped server.HandlerFunc called directly; handler = the inner server.HandlerFunc"
 
@@ -740,3 +752,12 @@ func c19MicroCase(t *testing.T, ep string, admitted, fallback bool, handler stri
 }
 
 func init() { c19UsesCtx = true }
+
+// c19FbResult is what the configured fallback answers: an error of its own, or nil (graceful degradation: the
+// caller is served something else and must not see a rejection) - the handler dimension is free on the blocked path.
+func c19FbResult(handler string) error {
+	if handler == "ok" {
+		return nil
+	}
+	return c19ErrFallback
+}
